@@ -12,10 +12,14 @@ import (
 var plainName = rapid.StringMatching(`[a-z0-9][a-z0-9._-]{0,7}`)
 
 func genName(t *rapid.T, label string, allowMeta bool) string {
-	k := rapid.IntRange(0, 9).Draw(t, label+".class")
+	k := rapid.IntRange(0, 10).Draw(t, label+".class")
 	switch {
 	case k <= 5:
 		return plainName.Draw(t, label)
+	case k == 10:
+		// long names: around the 100-byte name field of a tar header, the 155-byte prefix field, and up to NAME_MAX
+		n := rapid.SampledFrom([]int{60, 80, 85, 90, 95, 99, 100, 101, 120, 154, 155, 156, 200, 240}).Draw(t, label+".len")
+		return plainName.Draw(t, label) + "-" + strings.Repeat("L", n-1) + "g"
 	case k == 6:
 		return plainName.Draw(t, label) + " " + plainName.Draw(t, label+"2")
 	case k == 7:
@@ -180,7 +184,7 @@ func genUnit(t *rapid.T, dir string, label string, minFiles, maxFiles int, deep,
 			u.nodes = append(u.nodes, FNode{Rel: p, Kind: "symlink", Target: relTo(pathDir(p), tgt)})
 		case kind == 1 && i > 0:
 			// dangling symlink, absolute or relative
-			tgt := rapid.SampledFrom([]string{"/nonexistent/target", "../gone", "missing file", "/usr/lib/libfoo.so.1"}).Draw(t, fmt.Sprintf("%s.dangling%d", label, i))
+			tgt := rapid.SampledFrom([]string{"/nonexistent/target", "../gone", "missing file", "/usr/lib/libfoo.so.1", longTarget100, longTarget300}).Draw(t, fmt.Sprintf("%s.dangling%d", label, i))
 			u.nodes = append(u.nodes, FNode{Rel: p, Kind: "symlink", Target: tgt})
 		case kind == 2 && dirLinks && len(dirs) > 1:
 			tgt := rapid.SampledFrom(dirs[1:]).Draw(t, fmt.Sprintf("%s.dirlink%d", label, i))
@@ -236,6 +240,12 @@ func relTo(from, to string) string {
 }
 
 // ---------- destinations ----------
+
+// link targets beyond the 100-byte linkname field of a tar header
+var (
+	longTarget100 = "/usr/lib/" + strings.Repeat("t", 91)                                    // exactly 100 bytes
+	longTarget300 = "../" + strings.Repeat("deep-directory-name/", 14) + "final target.so.1" // about 300 bytes
+)
 
 var dstPrefixes = []string{"/opt/app", "/usr/share/foo", "/etc/foo", "/var/lib/my app", "/srv/données", "/usr/lib/foo/bar", "/opt/x/y/z",
 	"/+extras", "/.BUILD/x", "/-opt", "/.1st", "/ lead", "/x/y", "/o"}
@@ -388,7 +398,7 @@ func genContents(t *rapid.T, c *BuildCase, o contentOpts) {
 		case kind <= 12: // symlink with a literal target
 			e.Type = "symlink"
 			e.Form = "none"
-			e.Src = rapid.SampledFrom([]string{"/usr/bin/real", "../lib/libx.so.1", "relative/target", "/opt/app/e0", "target with space", "/a//b/./c", "x/../y", ".", "..", "/usr/lib", "/etc/passwd", "/"}).Draw(t, lbl+".target")
+			e.Src = rapid.SampledFrom([]string{"/usr/bin/real", "../lib/libx.so.1", "relative/target", "/opt/app/e0", "target with space", "/a//b/./c", "x/../y", ".", "..", "/usr/lib", "/etc/passwd", "/", longTarget100, longTarget300}).Draw(t, lbl+".target")
 			e.FI = genFileInfo(t, lbl+".fi", false)
 			e.Dst = spell(clean, false)
 		case kind <= 14 && o.trees:
